@@ -18,6 +18,8 @@ FMT = {'persistent': 'urn:oasis:names:tc:SAML:2.0:nameid-format:persistent',
 FMT_REV = dict((v, k) for k, v in FMT.items())
 SPQ = {'s1': 'urn:verif:sp', 's2': 'urn:verif:sp2', 's3': 'https://sp3.example/md?x=1,y=2 z'}
 SPQ_REV = dict((v, k) for k, v in SPQ.items())
+SPQ[''] = None
+SPQ_REV[None] = ''
 USERS = {'u1': 'alice', 'u2': 'bob', 'u3': 'carol@example.org'}
 USERS_REV = dict((v, k) for k, v in USERS.items())
 NQ = {'q': 'urn:verif:idp1', '': ''}
@@ -276,7 +278,7 @@ def record_trace(args):
             elif x < 0.8 and cur:
                 op = {'op': 'Manage', 'args': {'n': rng.choice(cur), 'spid': rng.choice(['p1', 'p2', ''])}}
             elif x < 0.9 and cur:
-                op = {'op': 'Mapping', 'args': {'n': rng.choice(cur), 'fmt': f, 'sp': s, 'allow': rng.random() < 0.6}}
+                op = {'op': 'Mapping', 'args': {'n': rng.choice(cur), 'fmt': f, 'sp': rng.choice([s, s, '']), 'allow': rng.random() < 0.6}}
             elif x < 0.94:
                 op = {'op': 'RemoveLocal', 'args': {'u': u}}
             else:
